@@ -23,11 +23,29 @@
    returned vault's principal) are inside the histories quantified over.
    The theorems named ..._messages_... are the earlier statements over histories of vault messages only.
 
+   EMERGENCY SHUTDOWN (Model/EsmLife.v): the histories of the theorems c02_esm_* also contain MsgDepositESM /
+   MsgExecuteESM, the esm BeginBlocker and its set-up steps, and MsgCollateralRedemption.  The "debt registered for
+   emergency redemption" is read from the AssetToAmount RECORDS ([esm_debt]: the records on the debt side); the
+   stable-mint set-up step moves a stable-mint vault's principal from the vault record to the register, the
+   collector step burns the collector's net fees and retires as much registered debt, a redemption burns exactly
+   the debt it retires.  [InvE02 c ext e]: for EVERY denom
+       supply - ext = recorded - over - gburn,   0 <= over, 0 <= gburn
+   where [gburn] is what MsgDepositESM burnt of an app's governance token (zero for every other denom).
+   Per-redemption law [holds_C02_redeem]: supply of the debt denom, the sender's balance and the debt record all
+   fall by exactly the amount; every collateral record pays q >= 0 out of the esm account to the sender and falls
+   by q; q respects the pro-rata bound (c02_payout_prorata).  Total paid out <= pooled: Properties/C01.v
+   c01_esm_identities.  Hypotheses: see Properties/C01.v ([eop_ok], [roles_ok]).
+
+   Finding C02-F2 = C01-F5 (the stable-mint set-up step left the vault record behind, so the stable-mint principal
+   was recorded twice and supply fell short of the recorded principal in a history without liquidations) is
+   repaired by fixes/C01-F5/patch.diff; the model follows the repaired code.
+
    Finding C02-F1 (MsgCreateStableMint, zero draw-down fee: msg.Amount paid out instead of
    tokenOutAmount) was reproduced on the real keeper; it is repaired by fixes/C02-F1/patch.diff
    and the model follows the repaired code, so no known-finding class remains here. *)
 From Comdex Require Import Lib.Base Lib.DecArith Lib.Atomic Model.Vault Model.VaultExample Model.VaultLife Model.VaultLifeExample
   Proofs.VaultProofs Proofs.VaultInv Proofs.VaultSupply Proofs.VaultLifeBase Proofs.VaultLifeInv Proofs.VaultLifeHist Proofs.VaultLifeSupply Proofs.VaultLifeWitness.
+From Comdex Require Import Model.EsmLife Model.EsmLifeExample Proofs.EsmLifeInv Proofs.EsmLifeSteps Proofs.EsmLifeHist Proofs.EsmLifeLaws Proofs.EsmLifeWitness.
 
 Theorem c02_backing_init : forall c b sp t pr, Inv02 c sp (init b sp t pr).
 Proof. exact inv02_init. Qed.
@@ -225,3 +243,134 @@ Example c02_life_predicate_discriminates :
   let l := lrun_all lx_cfg lx_lc lx_ops_a lx_init in
   holds_C02_life lx_cfg ex_sup lx_denoms (set_vs l (set_sup (vs l) (fun x => sup (vs l) x + 1))) = false.
 Proof. vm_compute. reflexivity. Qed.
+
+(* ====================== emergency shutdown ====================== *)
+
+Theorem c02_esm_backing_init : forall c b sp t pr tm, InvE02 c sp (elift (lift (init b sp t pr)) tm).
+Proof. exact invE02_init. Qed.
+Print Assumptions c02_esm_backing_init.
+
+(* one step of any kind carries the supply invariant over *)
+Theorem c02_esm_backing_step : forall c lc ec ext e o e', cfg_ok c -> roles_ok c -> eop_ok e o -> InvE c e -> InvE02 c ext e ->
+  erun c lc ec e o = Ok e' -> InvE02 c ext e'.
+Proof. intros c lc ec ext e o e' CK RO Hok I J H. exact (proj2 (erun_pair c lc ec e o e' CK RO Hok I H) ext J). Qed.
+Print Assumptions c02_esm_backing_step.
+
+(* through deposit, execution, snapshot, set-up, share calculation and redemption: the circulating supply never
+   exceeds the principal recorded on open vaults, stable-mint vaults, vaults awaiting auction and the debt
+   registered for emergency redemption *)
+Theorem c02_esm_backing_history : forall c lc ec ext ops e, cfg_ok c -> roles_ok c -> ehist_ok c lc ec e ops -> InvE c e -> InvE02 c ext e ->
+  forall d, sup (vs (el (erun_all c lc ec ops e))) d - ext d <= recorded_e c (erun_all c lc ec ops e) d.
+Proof.
+  intros c lc ec ext ops e CK RO HO I J d. destruct (ehistory_pair c lc ec ops CK RO e HO I) as [I' J'].
+  destruct (invE02_backing c ext _ I' (J' ext J) d) as (H1 & H2 & H3). lia.
+Qed.
+Print Assumptions c02_esm_backing_history.
+
+(* ... and it is exactly equal in histories without liquidations, for every denom no governance-token burn touched *)
+Theorem c02_esm_exact_history : forall c lc ec ext ops e, cfg_ok c -> roles_ok c -> Forall (fun o => is_eliq o = false) ops ->
+  ehist_ok c lc ec e ops -> InvE c e -> InvE02 c ext e -> NoSeized (el e) ->
+  forall d, gburn (erun_all c lc ec ops e) d = 0 ->
+  sup (vs (el (erun_all c lc ec ops e))) d - ext d = recorded_e c (erun_all c lc ec ops e) d.
+Proof. intros c lc ec ext ops e CK RO HN HO I J N. exact (ehistory_exact c lc ec ext ops CK RO HN e HO (conj I J) N). Qed.
+Print Assumptions c02_esm_exact_history.
+
+Theorem c02_esm_predicate_holds : forall c lc ec ops b sp t pr tm denoms, cfg_ok c -> roles_ok c ->
+  (forall d, b VAULT d = 0) -> (forall d, b ESMA d = 0) -> ehist_ok c lc ec (elift (lift (init b sp t pr)) tm) ops ->
+  holds_C02_esm c sp denoms (erun_all c lc ec ops (elift (lift (init b sp t pr)) tm)) = true.
+Proof.
+  intros c lc ec ops b sp t pr tm denoms CK RO Hb He HO.
+  destruct (ehistory_pair c lc ec ops CK RO _ HO (invE_init c b sp t pr tm Hb He)) as [I J].
+  exact (invE02_holds c sp _ denoms I (J sp (invE02_init c b sp t pr tm))).
+Qed.
+Print Assumptions c02_esm_predicate_holds.
+
+(* every successful redemption burns exactly the debt it retires, takes it from the sender, and pays each collateral
+   record's share out of the esm account: the executable law the runner evaluates before / after each redemption *)
+Theorem c02_redemption_law : forall c lc ec e from app denom amt e' denoms, from <> VAULT -> from <> ESMA -> InvE c e ->
+  redeem lc ec e from app denom amt = Ok e' -> holds_C02_redeem lc ec denoms e from app denom amt e' = true.
+Proof. exact redeem_law. Qed.
+Print Assumptions c02_redemption_law.
+
+(* the same law spelled out: what a successful MsgCollateralRedemption does to supply, balances and records *)
+Theorem c02_redemption_burn_exact : forall c lc ec e from app denom amt e', from <> VAULT -> from <> ESMA -> InvE c e ->
+  redeem lc ec e from app denom amt = Ok e' ->
+  exists r r', find_rec (recs e) app denom = Some r /\ find_rec (recs e') app denom = Some r' /\ ar_coll r = false /\
+    0 < amt <= ar_amt r /\ ar_amt r' = ar_amt r - amt /\
+    (forall x, sup (vs (el e')) x = sup (vs (el e)) x - (if x =? denom then amt else 0)) /\
+    (forall d, bal (vs (el e)) ESMA d - bal (vs (el e')) ESMA d = epaid e' d - epaid e d /\ 0 <= epaid e' d - epaid e d) /\
+    (forall d, bal (vs (el e')) from d = bal (vs (el e)) from d - (if d =? denom then amt else 0) + (epaid e' d - epaid e d)) /\
+    (forall d, esm_debt e' d = esm_debt e d - (if d =? denom then amt else 0)) /\
+    (forall d, esm_coll e' d = esm_coll e d - (epaid e' d - epaid e d)).
+Proof.
+  intros c lc ec e from app denom amt e' Hfv Hfe I H.
+  destruct (redeem_spec lc ec e from app denom amt e' Hfe (ie_nodup _ _ I) (ie_nonneg _ _ I) H) as (r & tw & dec & w & R).
+  destruct (re_rec_d _ _ _ _ _ _ _ _ _ _ _ _ R) as (rd & Frd & Ard).
+  exists r, rd. split; [exact (re_find _ _ _ _ _ _ _ _ _ _ _ _ R)|]. split; [exact Frd|]. split; [exact (re_side _ _ _ _ _ _ _ _ _ _ _ _ R)|].
+  split; [split; [exact (re_pos _ _ _ _ _ _ _ _ _ _ _ _ R)|exact (re_le _ _ _ _ _ _ _ _ _ _ _ _ R)]|]. split; [exact Ard|].
+  split; [intros x; rewrite (re_sup _ _ _ _ _ _ _ _ _ _ _ _ R x); reflexivity|].
+  split.
+  { intros d. rewrite (re_bal_esma _ _ _ _ _ _ _ _ _ _ _ _ R d). split; [lia|]. rewrite (re_paid _ _ _ _ _ _ _ _ _ _ _ _ R d). apply wsum_nonneg. intros x Hx.
+    pose proof (re_pay_nonneg _ _ _ _ _ _ _ _ _ _ _ _ R x Hx). destruct (ar_asset x =? d); lia. }
+  split; [intros d; rewrite (re_bal_from _ _ _ _ _ _ _ _ _ _ _ _ R d); reflexivity|].
+  split; [intros d; exact (re_debt _ _ _ _ _ _ _ _ _ _ _ _ R d)|intros d; exact (re_coll _ _ _ _ _ _ _ _ _ _ _ _ R d)].
+Qed.
+Print Assumptions c02_redemption_burn_exact.
+
+(* the pro-rata bound of a payout, as pure arithmetic of the four Dec operations of CalculateCollateral *)
+Theorem c02_payout_prorata : forall amt tw dec_d w share rate dec_c q, 0 <= amt -> 0 <= tw -> 0 < dec_d -> 0 <= share -> 0 < rate -> 0 <= dec_c ->
+  total_value amt tw dec_d = Ok w -> payout w share rate dec_c = Some q ->
+  0 <= q /\ q * dec_d * rate * P18 * P18 <= amt * tw * share * dec_c * P18 + dec_d * dec_c * (share + HALF18 + rate * P18).
+Proof. exact payout_prorata. Qed.
+Print Assumptions c02_payout_prorata.
+
+(* ... at most three base units above the exact share when decimals <= 10^18, share <= 1, rate >= 1 *)
+Theorem c02_payout_prorata_3 : forall amt tw dec_d w share rate dec_c q, 0 <= amt -> 0 <= tw -> 0 < dec_d -> 0 <= share <= P18 -> 1 <= rate -> 0 <= dec_c <= P18 ->
+  total_value amt tw dec_d = Ok w -> payout w share rate dec_c = Some q ->
+  q * dec_d * rate * P18 <= amt * tw * share * dec_c + 3 * dec_d * rate * P18.
+Proof. exact payout_prorata_3. Qed.
+Print Assumptions c02_payout_prorata_3.
+
+(* the share calculation divides each record's dollar value by the total of its side, within one unit of 10^-18 *)
+Theorem c02_share_rounding : forall lc ec s app ct dt r r' v dec rate, share_one lc ec s app (Some (ct, dt)) r = Ok r' ->
+  ec_dec ec (ar_asset r) = Some dec -> rate_of lc s app (ar_asset r) = Some rate -> total_value (ar_amt r) rate dec = Ok v ->
+  0 <= v -> 0 < (if ar_coll r then ct else dt) ->
+  share_ok v (if ar_coll r then ct else dt) (ar_share r') = true /\ ar_amt r' = ar_amt r /\ ar_coll r' = ar_coll r.
+Proof. exact share_one_law. Qed.
+Print Assumptions c02_share_rounding.
+
+(* non-vacuity: the example history (Model/EsmLifeExample.v) meets every hypothesis and contains no liquidation.  After the
+   set-up block supply - external of the debt denom 4 is 168600000 = registered debt (170000000 minted, 1400000 net
+   fees burnt with the collector step), nothing is recorded on vaults any more; the first redemption of 10000000 pays
+   8896795 of collateral 2 and 1779359 of collateral 3 and burns 10000000; after the last one supply, registered
+   debt and recorded principal are all 0; the governance denom 1 lost 1200000 to deposits (gburn), so it is
+   1200000 below its external supply and only the inequality holds for it *)
+Example c02_esm_example_hyps : cfg_ok ee_cfg /\ roles_ok ee_cfg /\ InvE ee_cfg ee_init /\ InvE02 ee_cfg ee_sup ee_init /\ NoSeized (el ee_init) /\
+  ehist_ok ee_cfg ee_lc ee_ec ee_init ee_ops /\ Forall (fun o => is_eliq o = false) ee_ops.
+Proof. exact (conj ee_cfg_ok (conj ee_roles_ok (conj ee_init_inv (conj ee_init_inv02 (conj ee_init_noseized (conj ee_hist ee_noliq)))))). Qed.
+Example c02_esm_example_run :
+  let m := erun_all ee_cfg ee_lc ee_ec (firstn 13 ee_ops) ee_init in
+  let s := erun_all ee_cfg ee_lc ee_ec (firstn 15 ee_ops) ee_init in
+  let r := erun_all ee_cfg ee_lc ee_ec (firstn 16 ee_ops) ee_init in
+  let f := erun_all ee_cfg ee_lc ee_ec ee_ops ee_init in
+  sup (vs (el m)) 4 - ee_sup 4 = 168600000 /\ esm_debt m 4 = 168600000 /\ debt_sum ee_cfg (vs (el m)) 4 = 0 /\ recorded_e ee_cfg m 4 = 168600000 /\
+  cool m 1 = Some (330000000 * P18, 168600000 * P18) /\
+  map (fun x => (ar_asset x, ar_share x)) (recs s) = [(2, 909090909090909091); (3, 90909090909090909); (4, P18)] /\
+  holds_C02_shares ee_lc ee_ec s 1 = true /\
+  map (fun d => bal (vs (el r)) 2 d - bal (vs (el s)) 2 d) ee_denoms = [8896795; 1779359; -10000000] /\ sup (vs (el r)) 4 = 158600000 /\
+  holds_C02_redeem ee_lc ee_ec ee_denoms s 2 1 4 10000000 r = true /\
+  sup (vs (el f)) 4 = 0 /\ recorded_e ee_cfg f 4 = 0 /\ forallb (c02e_exact ee_cfg ee_sup f) ee_denoms = true /\
+  gburn f 1 = 1200000 /\ sup (vs (el f)) 1 - ee_sup 1 = -1200000 /\ holds_C02_esm ee_cfg ee_sup (1 :: ee_denoms) f = true.
+Proof. vm_compute. repeat split; reflexivity. Qed.
+(* the predicates are not trivially true: the redemption law rejects a burn of one coin less than the amount retired,
+   the pro-rata bound rejects two base units more than the code pays, the backing predicate rejects the unrepaired
+   C01-F5 state for exactness (the stable-mint principal recorded twice) *)
+Example c02_esm_predicates_discriminate :
+  let m := erun_all ee_cfg ee_lc ee_ec (firstn 13 ee_ops) ee_init in
+  let s := erun_all ee_cfg ee_lc ee_ec (firstn 15 ee_ops) ee_init in
+  let r := erun_all ee_cfg ee_lc ee_ec (firstn 16 ee_ops) ee_init in
+  holds_C02_redeem ee_lc ee_ec ee_denoms s 2 1 4 10000000 (set_el r (set_vs (el r) (set_sup (vs (el r)) (fun x => sup (vs (el r)) x + (if x =? 4 then 1 else 0))))) = false /\
+  prorata_ok 8896795 10000000 1957295 909090909090909091 2000000 1000000 1000000 = true /\
+  prorata_ok 8896797 10000000 1957295 909090909090909091 2000000 1000000 1000000 = false /\
+  c02e_exact ee_cfg ee_sup (set_el m (set_vs (el m) (set_svaults (vs (el m)) [mkSV 1 1 2 30000000 30000000]))) 4 = false.
+Proof. vm_compute. repeat split; reflexivity. Qed.
